@@ -182,7 +182,7 @@ def level1_small(seed: int = 0) -> tuple[tuple, ...]:
     """A reduced set of one-level blocks (one per constructor x a few representative bodies)."""
     n = Names(seed)
     l0 = level0(seed)
-    pick = [(l0[0],), (l0[2], l0[8]), (l0[14],), (l0[22],), (l0[18],), (l0[33],)]
+    pick = [(l0[0],), (l0[2], l0[8]), (l0[14],), (l0[22],), (l0[18],), (l0[33],), (l0[27],), (l0[1], l0[8]), (l0[13], l0[24])]
     return tuple(blocks(n, pick))
 
 
